@@ -17,10 +17,11 @@ TAGS = {
     "C10": ("dsl", "range"),
     "C11": ("array", "builder"),
     "C12": ("parse",),
-    "C13": ("parser",),
+    "C13": ("parser", "pm"),
     "C14": ("parser",),
     "C15": ("destructure", "destructure-packed", "consumer", "builder", "array"),
     "C16": ("cmp",),
+    "C18": ("pm",),
     "C19": ("optres",),
     "C20": ("concat", "cstr"),
 }
